@@ -226,6 +226,13 @@ Publish(r) ==
   /\ hist' = Append(hist, <<"P", r>>)
   /\ UNCHANGED core
 
+\* the store refuses the manifest block: ToMultihash returns the error, nothing is published
+PublishWriteFault(r) ==
+  /\ CanOp /\ r \in PubOn /\ WriteFaults /\ ents[r] # {}
+  /\ hist # <<>> => hist[Len(hist)] # <<"PF", r>>
+  /\ hist' = Append(hist, <<"PF", r>>)
+  /\ UNCHANGED core
+
 (***************************************************************************)
 (* Tamper: an adversarial replica rebuilds its log (NewLog with Entries and *)
 (* Heads) with one entry replaced by an altered copy that keeps the hash:  *)
@@ -270,7 +277,7 @@ Iterate(r, o) ==
 Next ==
   \/ \E r \in ForkOn, s \in R, mode \in ForkModes : Fork(r, s, mode)
   \/ \E r \in ForkOn, s \in R, k \in LoadKinds : \E h \in SeqRange(heads[s]) : Load(r, s, k, h)
-  \/ \E r \in PubOn : Publish(r)
+  \/ \E r \in PubOn : Publish(r) \/ PublishWriteFault(r)
   \/ \E r \in Evil, k \in Kinds : \E x \in ents[r] : Tamper(r, x, k)
   \/ \E r \in IterOn : \E o \in IterOptions(r) : Iterate(r, o)
   \/ \E r \in R, pc \in PCs, pl \in Payloads : AppendOk(r, pc, pl) \/ AppendDenied(r, pc, pl) \/ AppendWriteFault(r, pc, pl)
